@@ -10,9 +10,12 @@ import (
 	"encoding/json"
 	"fmt"
 	"os"
+	"os/exec"
 	"sort"
 	"strings"
 	"time"
+
+	"github.com/mimiro-io/datahub/internal/verifhook"
 )
 
 type H struct {
@@ -27,6 +30,12 @@ type H struct {
 	Observed     []string
 	Rejected     string
 	tmp          string
+	recPath      string
+	// crash replay
+	windowOpen bool
+	hits       int
+	crashAt    int
+	acked      bool
 }
 
 type Record struct {
@@ -50,7 +59,7 @@ func NewReplay(path string) (*H, *Record, error) {
 	if err := json.Unmarshal(b, r); err != nil {
 		return nil, nil, err
 	}
-	return &H{vals: r.Model, params: r.Params, counts: map[string]int{}}, r, nil
+	return &H{vals: r.Model, params: r.Params, counts: map[string]int{}, recPath: path, crashAt: -1}, r, nil
 }
 
 func NewFromModel(m map[string]uint64) *H { return &H{vals: m, counts: map[string]int{}} }
@@ -208,6 +217,10 @@ func (h *H) Conc(x int) int { return x }
 // TempDir is a scratch directory (a modelled path under gosx).
 func (h *H) TempDir() string {
 	if h.tmp == "" {
+		if d := os.Getenv("VERIF_TMP"); d != "" {
+			h.tmp = d
+			return d
+		}
 		d, err := os.MkdirTemp("", "verif-replay-")
 		if err != nil {
 			panic(err)
@@ -218,6 +231,9 @@ func (h *H) TempDir() string {
 }
 
 func (h *H) Cleanup() {
+	if os.Getenv("VERIF_PHASE") == "child" {
+		return
+	}
 	if h.tmp != "" {
 		os.RemoveAll(h.tmp)
 	}
@@ -274,3 +290,72 @@ func (h *H) Yield() {}
 // StubJWT tells the gosx model of jwt.ParseWithClaims which token shape the
 // next parse sees (no effect natively, where a real token is parsed).
 func (h *H) StubJWT(aud, iss, alg int, sigOK, fresh bool) {}
+
+// ---- crash points
+//
+// A crash harness has the shape
+//
+//	draws...; if h.BeforeCrash() { open; setup; h.CrashWindowStart(); operation }
+//	h.CrashAndRecover(); reopen; observe; assert
+//
+// Under gosx the crash position is a symbolic choice among the
+// verifhook.Point boundaries hit since CrashWindowStart (plus "after the
+// operation returned"); the durable state is rebuilt from the effects before
+// that boundary and every in-memory object of the engine is dropped. Natively
+// the part before the crash runs in a child process of the test binary that
+// is killed with os.Exit at the recorded boundary; the parent then runs the
+// recovery part against the same directory with the real Badger.
+
+func (h *H) isChild() bool { return os.Getenv("VERIF_PHASE") == "child" }
+
+// BeforeCrash reports whether the code before the crash has to run in this
+// process (always under gosx; natively only in the child).
+func (h *H) BeforeCrash() bool { return h.isChild() }
+
+func (h *H) CrashWindowStart() {
+	if !h.isChild() {
+		return
+	}
+	h.crashAt = int(h.vals["crashpos"])
+	h.windowOpen = true
+	verifhook.SetCallback(func(name string) {
+		if !h.windowOpen {
+			return
+		}
+		if h.hits == h.crashAt {
+			os.Exit(7)
+		}
+		h.hits++
+	})
+}
+
+// CrashAndRecover kills the process at the chosen boundary (child) or runs
+// the child and continues with the recovery part (parent).
+func (h *H) CrashAndRecover() {
+	if h.isChild() {
+		// the operation returned before the crash
+		_ = os.WriteFile(h.TempDir()+"/verif-acked", []byte("1"), 0o644)
+		os.Exit(7)
+	}
+	_ = h.draw("crashpos")
+	dir := h.TempDir()
+	cmd := exec.Command(os.Args[0], "-test.run", "^TestVerifReplay$", "-test.count=1")
+	cmd.Env = append(os.Environ(), "VERIF_PHASE=child", "VERIF_TMP="+dir, "VERIF_REPLAY="+h.recPath)
+	out, err := cmd.CombinedOutput()
+	if ee, ok := err.(*exec.ExitError); !ok || ee.ExitCode() != 7 {
+		panic(rejected{fmt.Sprintf("crash child did not stop at the recorded boundary: %v: %s", err, tail(string(out), 600))})
+	}
+	if _, err := os.Stat(dir + "/verif-acked"); err == nil {
+		h.acked = true
+	}
+}
+
+// Acked reports whether the operation had returned before the crash.
+func (h *H) Acked() bool { return h.acked }
+
+func tail(s string, n int) string {
+	if len(s) > n {
+		return s[len(s)-n:]
+	}
+	return s
+}
